@@ -350,6 +350,9 @@ pub fn run(report: &Report) {
     explore_ans::<U16U32>(report, &small_alphabet::<U16U32>(), if q { 4 } else { 5 }, "mixed-precision-14");
     explore_ans::<U32U64>(report, &small_alphabet::<U32U64>(), if q { 4 } else { 5 }, "mixed-precision-14");
     explore_ans::<U64U128>(report, &small_alphabet::<U64U128>(), if q { 3 } else { 4 }, "mixed-precision-14");
+    super::pyfront::sweep(report, "seek", if q { 4 } else { 6 },
+        "every message up to the listed length over 3 symbols x 3 model programs: RangeEncoder.pos() in front of every symbol, every ordered pair of RangeDecoder.seek with a decode in between; AnsCoder.pos() at every stack level, every forward pair of AnsCoder.seek; positions beyond the data refused without harm",
+        &[], &[]);
 }
 
 fn replay_range<C: Cfg>(letters: &[Letter]) -> Result<String, String> {
